@@ -14,10 +14,7 @@ pub fn judge_member_roundtrip(ctx: &Ctx, ta: &mut Tally, world_b: &World, sup: &
 	}
 	// what the reference says comes back
 	let back_name = world_b.name_of(&acc[0], &qb.name);
-	let mut back_descs: Vec<&String> = qb.exp_desc.iter().collect();
-	if let Ans::Found { class, member, .. } = &acc[0] {
-		back_descs.extend(world_b.rows[*class].as_ref().unwrap().members[*member].to_desc_alt.iter());
-	}
+	let back_descs: Vec<&String> = qb.exp_desc.iter().collect();
 	if back_name != q.name || back_descs.iter().any(|d| **d != q.desc) {
 		ta.add("roundtrip:member:identity-not-required");
 		return;
